@@ -96,6 +96,27 @@ fn strat(max_ops: usize, max_steps: usize) -> impl Strategy<Value = Case> {
 		})
 }
 
+/// Replay aid for C12 (env C06_DUMP_MONITOR=<file>): when V's monitor serializes to bytes whose own read-back
+/// serializes differently, write those bytes (hex) once.
+fn dump_nonidempotent_monitor(sim: &Sim, v: usize, chan: lightning::ln::types::ChannelId) {
+	use lightning::util::ser::{ReadableArgs, Writeable};
+	let Ok(path) = std::env::var("C06_DUMP_MONITOR") else { return };
+	if std::path::Path::new(&path).exists() {
+		return;
+	}
+	let Ok(mon) = sim.w.nodes[v].chain_monitor.chain_monitor.get_monitor(chan) else { return };
+	let b1 = mon.encode();
+	let km = sim.w.nodes[v].keys_manager;
+	let mut r = &b1[..];
+	let Ok((_, m2)) = <(lightning::chain::BlockLocator, lightning::chain::channelmonitor::ChannelMonitor<lightning::util::test_channel_signer::TestChannelSigner>)>::read(&mut r, (km, km)) else { return };
+	let b2 = m2.encode();
+	if b1 != b2 {
+		let pos = b1.iter().zip(b2.iter()).position(|(a, b)| a != b).unwrap_or(0);
+		println!("C06_DUMP_MONITOR: monitor image ({} bytes) re-serializes differently after read (first difference at byte {}, lengths {} / {})", b1.len(), pos, b1.len(), b2.len());
+		let _ = std::fs::write(&path, vcore::hex(&b1));
+	}
+}
+
 /// TestChainMonitor::update_channel's self-check that a monitor equals its own serialization round trip
 fn is_roundtrip_tripwire(msg: &str, loc: &str) -> bool {
 	loc.contains("util/test_utils.rs") && msg.contains("new_monitor == *monitor")
@@ -268,6 +289,7 @@ fn oracle_inner(c: &Case, ctx: &mut Ctx, run: &mut Run, trace: &mut Vec<String>)
 		return Err(Failure::new("harness", "revoked commitment was not minable".to_string()));
 	}
 	jo.scan(&run.sim, hb)?;
+	jo.mark_durable();
 	jo.check_balances(&run.sim)?;
 
 	let mut x_confirmed: Vec<Transaction> = vec![];
@@ -325,6 +347,7 @@ fn oracle_inner(c: &Case, ctx: &mut Ctx, run: &mut Run, trace: &mut Vec<String>)
 					return Err(Failure::new("reload", format!("V could not be reloaded from its persisted state: {}", e)));
 				}
 				reloads += 1;
+				jo.on_reload();
 				run.sim.c06_monitor_events(v);
 				jo.scan(&run.sim, img_h)?;
 				trace.push(format!("reload at V height {} (image height {})", hb, img_h));
@@ -339,7 +362,13 @@ fn oracle_inner(c: &Case, ctx: &mut Ctx, run: &mut Run, trace: &mut Vec<String>)
 		}
 		lagged |= run.pending.len() >= 2;
 		jo.scan(&run.sim, hb)?;
+		if !matches!(st, Step::Rebroadcast) {
+			jo.mark_durable();
+		}
 		jo.check_balances(&run.sim)?;
+		if ctx.replay {
+			dump_nonidempotent_monitor(&run.sim, v, chan);
+		}
 	}
 
 	// ---- end game: X stops; everything V has broadcast gets mined (the property presumes V's claims can
@@ -348,6 +377,7 @@ fn oracle_inner(c: &Case, ctx: &mut Ctx, run: &mut Run, trace: &mut Vec<String>)
 		let hb = run.sim.height_of(v);
 		run.deliver_all();
 		jo.scan(&run.sim, hb)?;
+		jo.mark_durable();
 		jo.check_balances(&run.sim)?;
 		let cands = jo.v_mineable(&run.sim);
 		let open = jo.statuses(&run.sim, run.sim.chain.height()).iter().any(|(_, _, s)| matches!(s, Status::Open(_)));
@@ -478,7 +508,7 @@ fn main() {
 		PartSpec {
 			name: "revoked-broadcast",
 			rule: "generated history (all channel types, HTLCs both ways, dust, claims, fails, fee changes), any revoked state of X (bias oldest / newest revoked / most HTLCs), generated subset of X's HTLC-success/-timeout confirmed before V's claims, V's delivery style, lag, fee estimates and reloads. Non-trivial: the revoked commitment had >=1 HTLC output and (>=1 X second-stage transaction confirmed first or the state is >=3 commitments old)",
-			quick_cases: 1200,
+			quick_cases: 800,
 			thorough_cases: 40_000,
 			max_shrink: 300,
 		},
